@@ -173,8 +173,13 @@ impl WitnessSpec {
         (0..ext).map(|k| self.blinding(j, k)).collect()
     }
 
+    /// the recovery seed; the integers 0 and 1 stand for the boundary scalars zero and one
     pub fn seed(&self) -> Option<Scalar> {
-        self.seed_nonce.map(|s| scalar_from_seed("seed_nonce", s, 0))
+        self.seed_nonce.map(|s| match s {
+            0 => Scalar::ZERO,
+            1 => Scalar::ONE,
+            _ => scalar_from_seed("seed_nonce", s, 0),
+        })
     }
 
     /// Boundary-biased valid witness for `cfg`.
@@ -205,7 +210,15 @@ impl WitnessSpec {
             values.push(v);
             promises.push(p);
         }
-        let seed_nonce = if allow_seed && cfg.m == 1 && rng.chance(1, 2) { Some(rng.next_u64()) } else { None };
+        let seed_nonce = if allow_seed && cfg.m == 1 && rng.chance(1, 2) {
+            Some(match rng.below(12) {
+                0 => 0,
+                1 => 1,
+                _ => rng.next_u64() | 2,
+            })
+        } else {
+            None
+        };
         let mut zero_blind = Vec::new();
         if rng.chance(1, 10) {
             // boundary: an opening with an all-zero blinding vector, half of the time with value 0
